@@ -110,6 +110,34 @@ def build(cfg, upto=None):
     return dec, subs
 
 
+def must_accept(cfg):
+    """Does the window set fit?  Address arithmetic after the documented allocation rule (C02): a window of a map with w address
+    bits takes 2**max(w, alignment) addresses at the next multiple of that size (after an optional align_to), or sits at its
+    explicit address."""
+    try:
+        top = 1 << cfg["aw"]
+        cur, taken = 0, []
+        for sc in cfg["subs"]:
+            w = sc["aw"]
+            if sc.get("align_to") is not None:
+                a = max(sc["align_to"], cfg["align"])
+                cur = -(-cur // (1 << a)) * (1 << a)
+            size = 1 << max(cfg["align"], w)
+            if sc["addr"] is not None:
+                start = sc["addr"]
+                if start % (1 << cfg["align"]):
+                    return False
+            else:
+                start = -(-cur // size) * size
+            end = start + size
+            if end > top or any(s < end and start < e for s, e in taken):
+                return False
+            taken.append((start, end)); cur = end
+        return True
+    except Exception:
+        return False
+
+
 def check_config(ctx, cfg):
     dec, subs = build(cfg)
     probes = []
@@ -157,7 +185,7 @@ def main(run: Run):
     run.assumptions += BASE_ASSUMPTIONS_L2
     run.functions["amaranth_soc.csr.bus.Decoder.elaborate"] = "per-configuration (bounded: window sets), all inputs"
     run.functions["amaranth_soc.csr.bus.Decoder.add"] = "exercised; window ranges from bus.memory_map.windows()"
-    run_configs(run, __name__, cfgs, must_accept=lambda cfg: bool(cfg.get('directed')))
+    run_configs(run, __name__, cfgs, must_accept=must_accept)
     from . import tree_equiv
     tree_equiv.add_to(run, "C06")
     from . import patterns_l1
